@@ -180,7 +180,7 @@ CHECKS = {
     "C06": dict(
         test="TestC06",
         quick=dict(procs=6, checks=250, timeout=900),
-        thorough=dict(procs=32, checks=1500, timeout=2400, race=True),
+        thorough=dict(procs=32, checks=1000, timeout=2400, race=True),
         env={"GODEBUG": "clobberfree=1"},
         rule="rapid draws a history of 8-18 steps: decode (random type, anonymous or from the named universe, one string/binary field in three declared nocopy; messages with strings of 0..600 bytes, scalar lists of alignment 1/2/4/8 up to 90 elements so that cumulative sizes cross the 2048-byte block and single objects the 256-byte large-object threshold, pointer-bearing lists/maps), "
              "clobber (overwrite an earlier input buffer with 0xA5), garbage (heap churn), gc (two forced collections under GODEBUG=clobberfree=1), drop; up to 6 decoded objects stay live; "
